@@ -336,8 +336,15 @@ static varintFORMeta g_sh_for[NIN];
 static varintDict *g_sh_dict[NIN];
 static uint8_t g_sh_pfor[NIN][N * 10 + 64];
 static varintPFORMeta g_sh_pfor_meta[NIN];
+static varintBitmap *g_sh_bm[3]; /* array, bitmap and run container: operands and query targets of every thread */
 static int g_sh_ready;
 static void build_shared(void) {
+    for (int k = 0; k < 3; k++) {
+        g_sh_bm[k] = varintBitmapCreate();
+    }
+    for (int i = 0; i < 900; i++) varintBitmapAdd(g_sh_bm[0], (uint16_t)(i * 7 + 3));
+    for (int i = 0; i < 6000; i++) varintBitmapAdd(g_sh_bm[1], (uint16_t)(i * 3 + 1));
+    varintBitmapAddRange(g_sh_bm[2], 100, 9000);
     for (int k = 0; k < NIN; k++) {
         varintFORAnalyze(IN[k], N, &g_sh_for[k]);
         g_sh_dict[k] = varintDictCreate();
@@ -372,6 +379,23 @@ static size_t c_shared(int in, uint8_t *o, size_t cap) {
     r[8] = varintPFORGetAt(g_sh_pfor[in], N - 1, &g_sh_pfor_meta[in]);
     r[9] = varintPFORGetAt(g_sh_pfor[in], N / 2, &g_sh_pfor_meta[in]);
     r[10] = varintPFORSize(&g_sh_pfor_meta[in]);
+    {
+        const varintBitmap *a = g_sh_bm[in % 3], *b = g_sh_bm[(in + 1) % 3];
+        varintBitmap *u = varintBitmapOr(a, b), *x = varintBitmapAndNot(b, a), *c = varintBitmapClone(a);
+        uint64_t acc = varintBitmapCardinality(a) * 31 + varintBitmapContains(b, (uint16_t)IN[in][3]);
+        acc = acc * 31 + (u ? varintBitmapCardinality(u) : 0);
+        acc = acc * 31 + (x ? varintBitmapCardinality(x) : 0);
+        acc = acc * 31 + (c ? varintBitmapCardinality(c) : 0);
+        size_t w2 = varintBitmapEncode(a, buf);
+        for (size_t i = 0; i < w2; i++) acc = (acc ^ buf[i]) * 1099511628211ULL;
+        varintBitmapStats st; memset(&st, 0, sizeof(st));
+        varintBitmapGetStats(b, &st);
+        acc = acc * 31 + st.cardinality;
+        if (u) varintBitmapFree(u);
+        if (x) varintBitmapFree(x);
+        if (c) varintBitmapFree(c);
+        r[11] = acc;
+    }
     return put_u64s(o, 0, r, 12);
 }
 static const struct { const char *name; callfn fn; } CALLS[] = {
